@@ -238,7 +238,7 @@ class Task:
             if connection == "keep-alive" and not must_close:
                 if not content_length_header:
                     self.set_close_on_finish()
-                else:
+                elif not self.close_on_finish:
                     self.response_headers.append(("Connection", "Keep-Alive"))
             else:
                 self.set_close_on_finish()
